@@ -6,6 +6,9 @@
      matrixssl/tls13Decode.c matrixSslDecodeTls13 (CCS skipping, short plaintext alerts, decrypt,
                               early-data skipping, inner type dispatch, encodeResponse), tls13HandleAlert
      matrixssl/sslEncode.c   matrixSslEncode gate;  matrixssl/tls13Encode.c isGoodStateForAppDataEncrypt
+     DTLS 1.0 / 1.2 ([decodeD]): the USE_DTLS paths of matrixSslDecodeTls12AndBelow (truncated datagram, epoch comparison,
+                              replay window, out-of-order ChangeCipherSpec, DTLS_RETRANSMIT), matrixssl/dtls.c
+                              matrixDtlsGetOutdata / canResend ([dtls_getout]), matrixsslApi.c appDataExch
    Handshake-message processing is an oracle ([hsres]) : this file fixes WHEN a handshake handler may
    run and what the record layer does around it, not what the handlers compute (that is C06/C04).
    Keys are symbolic: a record is [Good] iff it verifies under the receiver's current read key and
@@ -14,7 +17,9 @@ From MV Require Export Base.Bytes Gen.Consts Gen.Defines.
 Local Open Scope Z_scope.
 
 Inductive prot := Plain | Good | Bad.
-Inductive hdr := HdrOk | HdrBadType | HdrBadVer | HdrBadLen.
+Inductive hdr := HdrOk | HdrBadType | HdrBadVer | HdrBadLen
+                | HdrTrunc.   (* the length field exceeds the bytes received: TLS waits for more (SSL_PARTIAL), DTLS refuses the datagram *)
+Inductive replay := Fresh | Dup.   (* DTLS: dtlsChkReplayWindow(ssl, rec.rsn) = 1 / otherwise (already seen or left of the window; C16) *)
 
 Record rec := {
   r_hdr : hdr;
@@ -29,8 +34,11 @@ Record rec := {
   r_overflow : bool;      (* plaintext longer than the maximum fragment *)
   r_empty : bool;         (* zero-length application data *)
   r_len : Z;              (* for the early-data skip budget *)
-  r_decfail : bool        (* <= TLS 1.2, record not Good: the cipher's decrypt call itself fails (AEAD tag, CBC length
+  r_decfail : bool;       (* <= TLS 1.2, record not Good: the cipher's decrypt call itself fails (AEAD tag, CBC length
                              not a block multiple) rather than the MAC / padding check after it *)
+  r_epoch : Z;            (* DTLS: epoch field of the record header *)
+  r_replay : replay       (* DTLS: what the replay window answers for the record's sequence number in the receiver's
+                             current window (only consulted for records of the expected epoch) *)
 }.
 
 Record st := {
@@ -49,7 +57,11 @@ Record st := {
   cl_early : bool;        (* tls13ClientEarlyDataEnabled *)
   sv_early : bool;        (* tls13ServerEarlyDataEnabled *)
   ccs_last : bool;        (* ssl->decState = SSL_HS_CCC: the previous record was a ChangeCipherSpec (read off the implementation) *)
-  nst_pending : bool      (* client: sid->sessionTicketState = RECVD_EXT, the server promised a NewSessionTicket not yet received *)
+  nst_pending : bool;     (* client: sid->sessionTicketState = RECVD_EXT, the server promised a NewSessionTicket not yet received *)
+  dtls : bool;            (* ACTV_VER(ssl, v_dtls_any); exclusive with v13 (one active version) *)
+  xepoch : Z;             (* DTLS: ssl->expectedEpoch as a number *)
+  pccs : bool;            (* DTLS: ssl->parsedCCS *)
+  adx : bool              (* DTLS: ssl->appDataExch (application data has been received: no more flight resends) *)
 }.
 
 (* what the handshake layer answers when the record layer hands it a handshake record *)
@@ -58,7 +70,9 @@ Inductive hsres :=
 | HsFatal (desc : Z)                                          (* handler set ssl->err *)
 | HsFallback (hs' : Z) (rsec' wsec' : bool) (respond : bool)   (* tls13 layer returned SSL_NO_TLS_1_3 (ServerHello selecting
                                                                   <= 1.2): the legacy path re-parses the record, with this result *)
-| HsFallbackFatal (desc : Z).
+| HsFallbackFatal (desc : Z)
+| HsRetransmit.                                               (* DTLS: parseSSLHandshake returned DTLS_RETRANSMIT (a handshake message
+                                                                  seen before): nothing changes, the last flight is to be sent again *)
 
 Inductive outcome :=
 | Refuse                      (* MATRIXSSL_ERROR / PS_PROTOCOL_FAIL from the entry guard *)
@@ -66,32 +80,55 @@ Inductive outcome :=
 | AlertOut (desc : Z)         (* fatal alert encoded towards the peer *)
 | AlertIn (level desc : Z)    (* SSL_ALERT: alert received *)
 | Ignored                     (* record consumed, nothing happens *)
-| Handshake (respond : bool). (* handshake record(s) consumed *)
+| Handshake (respond : bool)  (* handshake record(s) consumed *)
+| Resend.                     (* DTLS_RETRANSMIT: record consumed, MATRIXSSL_REQUEST_SEND with nothing encoded - the application is asked to
+                                 call matrixDtlsGetOutdata, which rebuilds the last flight (sslDecode.c 832, 857, 1572-1587; matrixsslApi.c 1494-1513) *)
 
 Definition set_err (s : st) : st :=
   {| v13 := v13 s; server := server s; hs := hs s; rsec := rsec s; wsec := wsec s; err := true; closed := closed s;
      ed_skip := ed_skip s; ed_seen := ed_seen s; ed_max := ed_max s; limbo := limbo s; ignored := ignored s;
-     cl_early := cl_early s; sv_early := sv_early s; ccs_last := ccs_last s; nst_pending := nst_pending s |}.
+     cl_early := cl_early s; sv_early := sv_early s; ccs_last := ccs_last s; nst_pending := nst_pending s;
+     dtls := dtls s; xepoch := xepoch s; pccs := pccs s; adx := adx s |}.
 Definition set_closed (s : st) : st :=
   {| v13 := v13 s; server := server s; hs := hs s; rsec := rsec s; wsec := wsec s; err := err s; closed := true;
      ed_skip := ed_skip s; ed_seen := ed_seen s; ed_max := ed_max s; limbo := limbo s; ignored := ignored s;
-     cl_early := cl_early s; sv_early := sv_early s; ccs_last := ccs_last s; nst_pending := nst_pending s |}.
+     cl_early := cl_early s; sv_early := sv_early s; ccs_last := ccs_last s; nst_pending := nst_pending s;
+     dtls := dtls s; xepoch := xepoch s; pccs := pccs s; adx := adx s |}.
 Definition set_hs (s : st) (h : Z) (r w v : bool) : st :=
   {| v13 := v; server := server s; hs := h; rsec := r; wsec := w; err := err s; closed := closed s;
      ed_skip := ed_skip s; ed_seen := ed_seen s; ed_max := ed_max s; limbo := limbo s; ignored := ignored s;
-     cl_early := cl_early s; sv_early := sv_early s; ccs_last := ccs_last s; nst_pending := nst_pending s |}.
+     cl_early := cl_early s; sv_early := sv_early s; ccs_last := ccs_last s; nst_pending := nst_pending s;
+     dtls := dtls s; xepoch := xepoch s; pccs := pccs s; adx := adx s |}.
 Definition set_ed_seen (s : st) (n : Z) : st :=
   {| v13 := v13 s; server := server s; hs := hs s; rsec := rsec s; wsec := wsec s; err := err s; closed := closed s;
      ed_skip := ed_skip s; ed_seen := n; ed_max := ed_max s; limbo := limbo s; ignored := ignored s;
-     cl_early := cl_early s; sv_early := sv_early s; ccs_last := ccs_last s; nst_pending := nst_pending s |}.
+     cl_early := cl_early s; sv_early := sv_early s; ccs_last := ccs_last s; nst_pending := nst_pending s;
+     dtls := dtls s; xepoch := xepoch s; pccs := pccs s; adx := adx s |}.
 Definition set_ignored (s : st) (n : Z) : st :=
   {| v13 := v13 s; server := server s; hs := hs s; rsec := rsec s; wsec := wsec s; err := err s; closed := closed s;
      ed_skip := ed_skip s; ed_seen := ed_seen s; ed_max := ed_max s; limbo := limbo s; ignored := n;
-     cl_early := cl_early s; sv_early := sv_early s; ccs_last := ccs_last s; nst_pending := nst_pending s |}.
+     cl_early := cl_early s; sv_early := sv_early s; ccs_last := ccs_last s; nst_pending := nst_pending s;
+     dtls := dtls s; xepoch := xepoch s; pccs := pccs s; adx := adx s |}.
+Definition set_xepoch (s : st) (e : Z) : st :=          (* DTLS: expectedEpoch := e *)
+  {| v13 := v13 s; server := server s; hs := hs s; rsec := rsec s; wsec := wsec s; err := err s; closed := closed s;
+     ed_skip := ed_skip s; ed_seen := ed_seen s; ed_max := ed_max s; limbo := limbo s; ignored := ignored s;
+     cl_early := cl_early s; sv_early := sv_early s; ccs_last := ccs_last s; nst_pending := nst_pending s;
+     dtls := dtls s; xepoch := e; pccs := pccs s; adx := adx s |}.
+Definition set_pccs (s : st) : st :=                      (* DTLS: parsedCCS := 1 *)
+  {| v13 := v13 s; server := server s; hs := hs s; rsec := rsec s; wsec := wsec s; err := err s; closed := closed s;
+     ed_skip := ed_skip s; ed_seen := ed_seen s; ed_max := ed_max s; limbo := limbo s; ignored := ignored s;
+     cl_early := cl_early s; sv_early := sv_early s; ccs_last := ccs_last s; nst_pending := nst_pending s;
+     dtls := dtls s; xepoch := xepoch s; pccs := true; adx := adx s |}.
+Definition set_adx (s : st) : st :=                       (* DTLS: appDataExch := 1 *)
+  {| v13 := v13 s; server := server s; hs := hs s; rsec := rsec s; wsec := wsec s; err := err s; closed := closed s;
+     ed_skip := ed_skip s; ed_seen := ed_seen s; ed_max := ed_max s; limbo := limbo s; ignored := ignored s;
+     cl_early := cl_early s; sv_early := sv_early s; ccs_last := ccs_last s; nst_pending := nst_pending s;
+     dtls := dtls s; xepoch := xepoch s; pccs := pccs s; adx := true |}.
 Definition set_limbo_resumed (s : st) : st :=      (* CCS in CERTIFICATE state with a ticket in limbo *)
   {| v13 := v13 s; server := server s; hs := c_SSL_HS_FINISHED; rsec := true; wsec := wsec s; err := err s; closed := closed s;
      ed_skip := ed_skip s; ed_seen := ed_seen s; ed_max := ed_max s; limbo := false; ignored := ignored s;
-     cl_early := cl_early s; sv_early := sv_early s; ccs_last := ccs_last s; nst_pending := nst_pending s |}.
+     cl_early := cl_early s; sv_early := sv_early s; ccs_last := ccs_last s; nst_pending := nst_pending s;
+     dtls := dtls s; xepoch := xepoch s; pccs := pccs s; adx := adx s |}.
 
 (* every path through `encodeResponse` with ssl->err set: the alert is written and the session is
    flagged (sslDecode.c 1811-1815; tls13Decode.c encodeResponse after the C15 repair) *)
@@ -114,6 +151,8 @@ Definition apply_hs (s : st) (o : hsres) : st * outcome :=
   | HsOk h r w v resp => (set_hs s h r w v, Handshake resp)
   | HsFatal d => fatal s d
   | HsFallback _ _ _ _ | HsFallbackFatal _ => (s, Ignored)   (* not reached: converted by [decode] *)
+  | HsRetransmit => (s, Resend)      (* `case DTLS_RETRANSMIT` of the switch on parseSSLHandshake's result (sslDecode.c 1572-1587);
+                                        parseSSLHandshake returns it under DTLS only *)
   end.
 
 Definition is_fallback (o : hsres) : bool :=
@@ -140,6 +179,7 @@ Definition decode12 (s : st) (r : rec) (o : hsres) : st * outcome :=
   | HdrBadType => fatal s c_SSL_ALERT_UNEXPECTED_MESSAGE
   | HdrBadVer => fatal s c_SSL_ALERT_ILLEGAL_PARAMETER
   | HdrBadLen => fatal s c_SSL_ALERT_ILLEGAL_PARAMETER
+  | HdrTrunc => (s, Ignored)      (* SSL_PARTIAL: nothing is consumed or changed until the rest arrives (chunking is C18's subject) *)
   | HdrOk =>
     if rsec s && negb (match r_prot r with Good => true | _ => false end)
     then fatal s (if r_decfail r then c_SSL_ALERT_DECRYPT_ERROR else c_SSL_ALERT_BAD_RECORD_MAC)
@@ -173,6 +213,7 @@ Definition decode13 (s : st) (r : rec) (o : hsres) : st * outcome :=
   match r_hdr r with
   | HdrBadLen => fatal s c_SSL_ALERT_ILLEGAL_PARAMETER
   | HdrBadType => fatal s c_SSL_ALERT_UNEXPECTED_MESSAGE
+  | HdrTrunc => (s, Ignored)      (* SSL_PARTIAL, as in [decode12] *)
   | HdrBadVer | HdrOk =>                                       (* legacy_version is ignored *)
     let t := r_outer r in
     if negb (valid_type t) then fatal s c_SSL_ALERT_UNEXPECTED_MESSAGE
@@ -208,9 +249,101 @@ Definition decode13 (s : st) (r : rec) (o : hsres) : st * outcome :=
       else dispatch t
   end.
 
-(* ---- matrixSslDecode: the entry guard, then the version dispatch *)
+(* ---- DTLS 1.0 / 1.2: matrixSslDecodeTls12AndBelow with ACTV_VER(ssl, v_dtls_any)
+   One record per datagram (what [step]/[inj] of the harness deliver).  A datagram holding several records is decoded by the
+   same code record by record (`goto decodeMore`), except that records behind one that makes MatrixSSL answer, and the Finished
+   behind a skipped ChangeCipherSpec, are dropped unread (sslDecode.c 803-831, matrixsslApi.c 1544) - for the safety
+   properties proved here that is the network losing those records.
+   What DTLS changes against [decode12], in the order of the code:
+     693-702   a record longer than the datagram is refused with illegal_parameter (no SSL_PARTIAL)
+     715-861   dtlsCompareEpoch(rec.epoch, expectedEpoch): a record of another epoch is skipped WITHOUT being decrypted -
+               silently (MATRIXSSL_SUCCESS) or with a retransmission request (DTLS_RETRANSMIT: older epoch, or a
+               ChangeCipherSpec while no application data has been received: the 'endgame' case) - except
+                 . a later-epoch handshake record in FINISHED after the ChangeCipherSpec was parsed (resent Finished), and
+                 . later-epoch application data in DONE,
+               which adopt the record's epoch as the expected one (window reset) and go on to decryption; a later-epoch
+               handshake record in DONE only adopts the epoch; a later-epoch record at a server still expecting
+               ClientHello is answered with unexpected_message.
+     863-874   dtlsChkReplayWindow: a sequence number seen before (or left of the window) is skipped silently
+     893-1261  decryption / MAC exactly as in TLS: a record of the expected epoch with a fresh sequence number that does not
+               verify is FATAL (decrypt_error / bad_record_mac) - MatrixSSL does not use RFC 6347's permission to drop it
+     1327-1352 ChangeCipherSpec outside FINISHED is silently ignored (reordering); in FINISHED it sets parsedCCS, increments
+               the expected epoch and resets the window; a repeated ChangeCipherSpec is not an error
+     1572-1587 parseSSLHandshake may answer DTLS_RETRANSMIT
+     matrixsslApi.c 1730-1733  delivering application data sets appDataExch *)
+Definition next_epoch (e : Z) : Z := if Z.eqb e 65535 then 0 else e + 1.       (* incrTwoByte, dtls.c 779-805 *)
+
+Definition apply_hsD (s : st) (o : hsres) : st * outcome :=
+  match o with
+  | HsOk h r w _ resp => (set_hs s h r w (v13 s), Handshake resp)     (* a DTLS session never becomes a TLS 1.3 session *)
+  | HsFatal d => fatal s d
+  | HsRetransmit => (s, Resend)
+  | HsFallback _ _ _ _ | HsFallbackFatal _ => (s, Ignored)             (* SSL_NO_TLS_1_3 does not exist on this path *)
+  end.
+
+(* from decryption on (sslDecode.c 893-1772); [s] already carries an adopted epoch *)
+Definition decodeD_body (s : st) (r : rec) (o : hsres) : st * outcome :=
+  if rsec s && negb (match r_prot r with Good => true | _ => false end)
+  then fatal s (if r_decfail r then c_SSL_ALERT_DECRYPT_ERROR else c_SSL_ALERT_BAD_RECORD_MAC)
+  else if r_overflow r then fatal s c_SSL_ALERT_RECORD_OVERFLOW
+  else
+    let t := r_outer r in
+    if Z.eqb t c_SSL_RECORD_TYPE_CHANGE_CIPHER_SPEC then
+      if negb (r_ccs_ok r) then fatal s c_SSL_ALERT_ILLEGAL_PARAMETER
+      else if negb (Z.eqb (hs s) c_SSL_HS_FINISHED) then (s, Ignored)                       (* 1330-1336 *)
+      else
+        let s1 := set_xepoch (set_pccs s) (next_epoch (xepoch s)) in                      (* 1344-1350 *)
+        if negb (server s) && nst_pending s then fatal s1 c_SSL_ALERT_UNEXPECTED_MESSAGE    (* 1372-1382 *)
+        else (set_hs s1 (hs s1) true (wsec s1) (v13 s1), Ignored)                           (* 1384 sslActivateReadCipher *)
+    else if Z.eqb t c_SSL_RECORD_TYPE_ALERT then
+      if negb (r_alert_ok r) then fatal s c_SSL_ALERT_DECODE_ERROR
+      else recv_alert12 s (r_alert_level r) (r_alert_desc r)
+    else if Z.eqb t c_SSL_RECORD_TYPE_HANDSHAKE then apply_hsD s o
+    else if Z.eqb t c_SSL_RECORD_TYPE_APPLICATION_DATA then
+      if negb (app_gate12 s) then fatal s c_SSL_ALERT_UNEXPECTED_MESSAGE                    (* 1698-1704, the same gate as TLS *)
+      else if r_empty r then
+        if Z.leb max_ignored (ignored s) then fatal (set_ignored s (ignored s + 1)) c_SSL_ALERT_UNEXPECTED_MESSAGE
+        else (set_adx (set_ignored s (ignored s + 1)), Deliver)
+      else (set_adx (if Z.ltb 0 (ignored s) then set_ignored s (ignored s - 1) else s), Deliver)
+    else fatal s c_SSL_ALERT_UNEXPECTED_MESSAGE.
+
+(* a record of another epoch that is not decrypted (sslDecode.c 788-861, the record is the last of its datagram) *)
+Definition skipD (s0 : st) (newer older : bool) (t : Z) : st * outcome :=
+  if Z.eqb t c_SSL_RECORD_TYPE_CHANGE_CIPHER_SPEC && negb (adx s0) then (s0, Resend)           (* 797-833 'endgame' *)
+  else if newer && server s0 && Z.eqb (hs s0) c_SSL_HS_CLIENT_HELLO then fatal s0 c_SSL_ALERT_UNEXPECTED_MESSAGE   (* 845-852 *)
+  else if older then (s0, Resend)                                                            (* 855-858 *)
+  else (s0, Ignored).                                                                        (* 860 *)
+
+Definition decodeD (s : st) (r : rec) (o : hsres) : st * outcome :=
+  match r_hdr r with
+  | HdrBadType => fatal s c_SSL_ALERT_UNEXPECTED_MESSAGE
+  | HdrBadVer => fatal s c_SSL_ALERT_ILLEGAL_PARAMETER
+  | HdrBadLen => fatal s c_SSL_ALERT_ILLEGAL_PARAMETER
+  | HdrTrunc => fatal s c_SSL_ALERT_ILLEGAL_PARAMETER                                        (* 693-702 *)
+  | HdrOk =>
+    let t := r_outer r in
+    let newer := Z.ltb (xepoch s) (r_epoch r) in
+    let older := Z.ltb (r_epoch r) (xepoch s) in
+    if Z.eqb (r_epoch r) (xepoch s) then
+      match r_replay r with
+      | Dup => (s, Ignored)                                                                  (* 863-874 *)
+      | Fresh => decodeD_body s r o
+      end
+    else if newer && Z.eqb t c_SSL_RECORD_TYPE_HANDSHAKE && Z.eqb (hs s) c_SSL_HS_FINISHED then
+      if negb (pccs s) then (s, Ignored)                                                     (* 735-740 *)
+      else decodeD_body (set_xepoch s (r_epoch r)) r o       (* 747-749: window reset, then CHECK_REPLAY_WINDOW accepts anything *)
+    else if newer && Z.eqb t c_SSL_RECORD_TYPE_APPLICATION_DATA && Z.eqb (hs s) c_SSL_HS_DONE then
+      decodeD_body (set_xepoch s (r_epoch r)) r o                                            (* 779-786 *)
+    else if newer && Z.eqb t c_SSL_RECORD_TYPE_HANDSHAKE && Z.eqb (hs s) c_SSL_HS_DONE then
+      skipD (set_xepoch s (r_epoch r)) newer older t                                         (* 764-770 *)
+    else skipD s newer older t
+  end.
+
+(* ---- matrixSslDecode: the entry guard, then the version dispatch (the active version is ONE version: dtls and v13 exclude
+   each other, so the order of the two tests is immaterial; DTLS first keeps that exclusion out of the theorems) *)
 Definition decode (s : st) (r : rec) (o : hsres) : st * outcome :=
   if err s || closed s then (s, Refuse)
+  else if dtls s then decodeD s r o
   else if v13 s then
     if is_fallback o then decode12 s r (legacy_answer o) else decode13 s r o
   else decode12 s r o.
@@ -220,6 +353,25 @@ Definition encode_app_ok (s : st) : bool :=
   if v13 s then
     negb (err s) && negb (closed s) && (Z.eqb (hs s) c_SSL_HS_DONE || cl_early s || sv_early s)
   else negb (err s) && negb (closed s) && Z.eqb (hs s) c_SSL_HS_DONE.
+
+(* ---- DTLS: matrixDtlsGetOutdata (dtls.c 1124-1227) - is the last flight encoded again?
+   [pending]: ssl->outlen > 0; [flight_done]: ssl->flightDone; [resumed] / [cauth]: SSL_FLAGS_RESUMED / SSL_FLAGS_CLIENT_AUTH *)
+Inductive getout := GoNone | GoData | GoResend | GoRefused.
+Definition can_resend (s : st) (resumed cauth : bool) : bool :=                              (* canResend, dtls.c 1044-1109 *)
+  if server s then
+    Z.eqb (hs s) c_SSL_HS_CLIENT_HELLO || (negb resumed && Z.eqb (hs s) c_SSL_HS_DONE) ||
+    (if cauth then Z.eqb (hs s) c_SSL_HS_CERTIFICATE else Z.eqb (hs s) c_SSL_HS_CLIENT_KEY_EXCHANGE) ||
+    (resumed && Z.eqb (hs s) c_SSL_HS_FINISHED)
+  else
+    (* a flight can only be rebuilt on a flight boundary: sslEncodeResponse builds it from hsState *)
+    Z.eqb (hs s) c_SSL_HS_SERVER_HELLO || (negb resumed && Z.eqb (hs s) c_SSL_HS_FINISHED) || Z.eqb (hs s) c_SSL_HS_DONE.
+Definition dtls_getout (s : st) (pending flight_done resumed cauth : bool) : getout :=
+  if pending then GoData                                      (* output waiting (e.g. the alert of a dying session) is handed out *)
+  else if adx s then GoNone                                   (* 1143-1147 *)
+  else if flight_done then GoNone                             (* 1155-1160 *)
+  else if err s || closed s then GoRefused                    (* C15 repair: a flagged session encodes nothing any more *)
+  else if can_resend s resumed cauth then GoResend            (* 1189-1211 dtlsResendFlight *)
+  else GoNone.                                                (* 1191-1196 *)
 
 (* a run: the oracle answers are part of the input history *)
 Definition input := (rec * hsres)%type.
